@@ -11,24 +11,17 @@ mod ser;
 
 use std::env;
 
-/// A logger that accepts everything and writes nothing: the arguments of the library's debug!/info!/error! calls are
-/// evaluated (as they are in a default build, where these macros are println!) without producing output.
+/// A logger that accepts everything and writes nothing: the argument expressions of the library's debug!/info!/error!
+/// calls are evaluated (as they are in a default build, where these macros are println!) without producing output.
 struct NullLog;
 impl log::Log for NullLog {
     fn enabled(&self, _m: &log::Metadata) -> bool {
         true
     }
-    fn log(&self, r: &log::Record) {
-        // format the message so that Display implementations of the arguments run as they would when printed
-        let _ = std::fmt::Write::write_fmt(&mut NullSink, *r.args());
+    fn log(&self, _r: &log::Record) {
+        // (the message is not formatted: printing a huge expression tree is slow and says nothing about the properties)
     }
     fn flush(&self) {}
-}
-struct NullSink;
-impl std::fmt::Write for NullSink {
-    fn write_str(&mut self, _s: &str) -> std::fmt::Result {
-        Ok(())
-    }
 }
 static NULL_LOG: NullLog = NullLog;
 
